@@ -630,6 +630,91 @@ theorem cmp_ops_exact (op : CmpOp) (x y : N) (hx : NumOK x) (hy : NumOK y) :
         | (rw [decide_eq_false (by omega)]; rfl)
         | simp
 
+/-! #### the other implementations of the comparison operators, chained comparisons -/
+
+/-- **every implementation applies the right operator**: in each of the five places the source
+    spells a comparison out (plain instructions, `CompareAndPreserve`, `eval_compare`,
+    `eval_binop`, the tests `is_*`) the arm for `op` applies exactly `op` — checked against the
+    table regenerated from the source -/
+theorem impl_arms_agree (op : CmpOp) :
+    implOp "vm:instruction" op = some op ∧ implOp "vm:compare_and_preserve" op = some op ∧
+    implOp "ast:eval_compare" op = some op ∧ implOp "ast:eval_binop" op = some op ∧
+    implOp "tests:is" op = some op := by
+  cases op <;> decide
+
+/-- `CompareAndPreserve(op)` computes what `Instruction::<op>` computes, which is `a OP b` -/
+theorem preserve_arm_agrees_with_binop (op : CmpOp) (a b : N) :
+    implCmp "vm:compare_and_preserve" op a b = implCmp "vm:instruction" op a b ∧
+    implCmp "vm:instruction" op a b = cmpOp op a b := by
+  unfold implCmp
+  rw [(impl_arms_agree op).1, (impl_arms_agree op).2.1]
+  exact ⟨rfl, rfl⟩
+
+theorem implCmp_eq (impl : String) (op : CmpOp) (h : implOp impl op = some op) (a b : N) :
+    implCmp impl op a b = cmpOp op a b := by
+  unfold implCmp; rw [h]
+
+/-- **a chained comparison is the conjunction of its links** (run-time path) -/
+theorem chain_eq_conjunction (a : N) (links : List (CmpOp × N)) : chain a links = conj a links := by
+  induction links generalizing a with
+  | nil => rfl
+  | cons l rest ih =>
+    obtain ⟨op, b⟩ := l
+    cases rest with
+    | nil =>
+      simp only [chain, conj, Bool.and_true]
+      exact (preserve_arm_agrees_with_binop op a b).2
+    | cons l2 rest2 =>
+      have e : chain a ((op, b) :: l2 :: rest2) =
+          if implCmp "vm:compare_and_preserve" op a b then chain b (l2 :: rest2) else false := rfl
+      have e2 : conj a ((op, b) :: l2 :: rest2) = (cmpOp op a b && conj b (l2 :: rest2)) := rfl
+      rw [e, e2, (preserve_arm_agrees_with_binop op a b).1, (preserve_arm_agrees_with_binop op a b).2, ih b]
+      cases cmpOp op a b <;> rfl
+
+/-- … and so is the constant-folded chain: folding and execution agree -/
+theorem chain_folded_eq_conjunction (a : N) (links : List (CmpOp × N)) :
+    chainFolded a links = conj a links := by
+  induction links generalizing a with
+  | nil => rfl
+  | cons l rest ih =>
+    obtain ⟨op, b⟩ := l
+    simp only [chainFolded, conj]
+    rw [implCmp_eq _ op (impl_arms_agree op).2.2.1, ih b]
+    cases cmpOp op a b <;> rfl
+
+theorem chain_folded_eq_chain (a : N) (links : List (CmpOp × N)) : chainFolded a links = chain a links := by
+  rw [chain_folded_eq_conjunction, chain_eq_conjunction]
+
+/-- the exact meaning of a chain -/
+def exactConj (k : Int) : List (CmpOp × Int) → Bool
+  | [] => true
+  | (op, kb) :: rest => exactCmp op k kb && exactConj kb rest
+
+/-- a chain over numbers of any representation is the conjunction of the exact comparisons -/
+theorem chain_exact (a : N) (links : List (CmpOp × N)) (ha : NumOK a) (hl : ∀ l ∈ links, NumOK l.2) :
+    chain a links = exactConj (numKey a) (links.map (fun l => (l.1, numKey l.2))) := by
+  rw [chain_eq_conjunction]
+  induction links generalizing a with
+  | nil => rfl
+  | cons l rest ih =>
+    obtain ⟨op, b⟩ := l
+    have hb : NumOK b := hl (op, b) (List.mem_cons_self ..)
+    simp only [conj, List.map_cons, exactConj]
+    rw [cmp_ops_exact op a b ha hb, ih b hb (fun l hl' => hl l (List.mem_cons_of_mem _ hl'))]
+
+/-- the names under which the tests are registered (`x is ge(y)`, `select('>=', y)`, …) -/
+theorem tie_test_names : MJ.Gen.compareTestNames =
+    [("eq", "eq"), ("equalto", "eq"), ("==", "eq"), ("ne", "ne"), ("!=", "ne"), ("lt", "lt"),
+     ("lessthan", "lt"), ("<", "lt"), ("le", "le"), ("<=", "le"), ("gt", "gt"), ("greaterthan", "gt"),
+     (">", "gt"), ("ge", "ge"), (">=", "ge")] := by decide
+
+-- `2 >= 2.0 > 1` (the seeded case: equality decides the first link), `1 < 2 < 2` is false
+set_option exponentiation.threshold 3000 in
+set_option maxRecDepth 100000 in
+example : chain (.u64 2) [(.ge, .f64 0x4000000000000000), (.gt, .i64 1)] = true ∧
+    chain (.u64 1) [(.lt, .u64 2), (.lt, .i128 2)] = false ∧
+    chainFolded (.u64 2) [(.ge, .f64 0x4000000000000000), (.gt, .i64 1)] = true := by decide
+
 /-- `<int> as f64` is exact below `2^53` … -/
 theorem int_to_float_exact (x : Int) (hx : x.natAbs < P53) :
     key (ofInt x) = x * (scale : Int) ∧ isFinite (ofInt x) = true := by
